@@ -39,14 +39,13 @@ Proof. intros V n n' p e Hn H. apply tlive_at_some in H. apply tlive_at_some. de
 
 Lemma mon_step_model : forall hd q s cl,
   wf_header hd = true -> R q s ->
-  (exists q', mon_step hd q (cl, snd (step (h_kind hd) (h_cfg hd) s cl),
-                             observe (fst (step (h_kind hd) (h_cfg hd) s cl))) = MOk q' /\
-              R q' (fst (step (h_kind hd) (h_cfg hd) s cl))) \/
-  mon_step hd q (cl, snd (step (h_kind hd) (h_cfg hd) s cl),
-                 observe (fst (step (h_kind hd) (h_cfg hd) s cl))) = MBad 1%N.
+  exists q', cont (mon_step hd q (cl, snd (step (h_kind hd) (h_cfg hd) s cl),
+                                  observe (fst (step (h_kind hd) (h_cfg hd) s cl)))) = Some q' /\
+             R q' (fst (step (h_kind hd) (h_cfg hd) s cl)).
 Proof.
   intros hd q s cl Hwf HR.
-  assert (Hmin : 1 <= min_temp_ttl (h_cfg hd)) by (unfold wf_header in Hwf; cbn; lia).
+  assert (Hmin1 : min_temp_ttl (h_cfg hd) = 1) by (unfold wf_header in Hwf; cbn; lia).
+  assert (Hmin : 1 <= min_temp_ttl (h_cfg hd)) by lia.
   destruct q as [qn qh qo]. unfold R in HR. cbn [q_now q_holder q_off] in HR.
   destruct HR as [R1 [R2 [R3 R4]]]. subst qn qh.
   set (k := h_kind hd). set (c := h_cfg hd).
@@ -62,19 +61,19 @@ Proof.
         change holder_auth with signed_by. rewrite Es. cbn [andb].
         unfold tget in Eg. destruct (tlive_at (now s) (pending (rts s))) as [e|] eqn:Et; [|discriminate].
         destruct R4 as [f [F1 [F2 [F3 F4]]]]. rewrite F1. rewrite F2, Eg.
-        left. eexists. split; [reflexivity|].
+        eexists. split; [reflexivity|].
         unfold R, set_off. cbn [q_now q_holder q_off now rts holder pending with_rt tlive_at].
         repeat split; auto.
       * cbn [fst snd observe]. rewrite eqb_oaddr_refl. cbn [negb]. change (0 =? 0) with true. cbv iota.
         change holder_auth with signed_by.
-        match goal with |- (exists q', (if ?b then _ else _) = _ /\ _) \/ _ => assert (Hb : b = false) end.
+        match goal with |- exists q', cont (if ?b then _ else _) = _ /\ _ => assert (Hb : b = false) end.
         { apply andb_false_iff in Eb. destruct Eb as [Eb|Eb]; [rewrite Eb; reflexivity|].
           destruct (signed_by (holder (rts s)) au); [|reflexivity]. cbn [andb].
           destruct qo as [f|]; [|reflexivity].
           unfold tget in Eb. destruct (tlive_at (now s) (pending (rts s))) as [e|] eqn:Et.
           - destruct R4 as [f' [F1 [F2 [F3 F4]]]]. inversion F1; subst f'. rewrite F2, Eb. reflexivity.
           - destruct R4 as [F3 F4]. destruct (now s <=? o_lu f) eqn:El; [|apply andb_false_r]. lia. }
-        rewrite Hb. left. eexists. split; [reflexivity|]. unfold R. cbn [q_now q_holder q_off]. auto.
+        rewrite Hb. eexists. split; [reflexivity|]. unfold R. cbn [q_now q_holder q_off]. auto.
     + rewrite (step_offer k c s new lu au Hmin Hz).
       unfold mon_step. cbn [q_holder q_now q_off fst snd].
       assert (E0 : (lu =? 0) = false) by (apply Z.eqb_neq; exact Hz). rewrite E0.
@@ -85,7 +84,7 @@ Proof.
       rewrite Hv.
       destruct (signed_by (holder (rts s)) au && ((now s <=? lu) && (lu <=? now s + max_ttl c - 1))) eqn:Eb.
       * cbn [fst snd observe with_rt rts holder]. rewrite eqb_oaddr_refl. cbn [negb].
-        left. eexists. split; [reflexivity|].
+        eexists. split; [reflexivity|].
         apply andb_prop in Eb. destruct Eb as [Es Ev]. apply andb_prop in Ev. destruct Ev as [Ev1 Ev2].
         unfold R, set_off. cbn [q_now q_holder q_off now rts holder pending with_rt].
         split; [reflexivity|]. split; [reflexivity|]. split.
@@ -99,13 +98,13 @@ Proof.
            eexists. split; [reflexivity|]. cbn [o_new o_lu o_cover tval tlive]. repeat split; lia.
         -- unfold tlive_at. cbn [tlive tval].
            assert (Z.max lu (now s + min_temp_ttl c - 1) <? now s = false) as -> by lia.
-           assert (Hf : Z.max lu (now s + h_min hd - 1) = Z.max lu (now s + min_temp_ttl c - 1)) by reflexivity.
+           assert (Hf : Z.max lu (now s + min_temp_ttl c - 1) = lu) by (unfold c; rewrite Hmin1; lia).
            destruct qo as [f|].
            ++ destruct R4 as [F3 F4]. assert (El : (now s <=? o_cover f) = false) by lia. rewrite El.
               eexists. split; [reflexivity|]. cbn [o_new o_lu o_cover tval tlive]. repeat split; lia.
            ++ eexists. split; [reflexivity|]. cbn [o_new o_lu o_cover tval tlive]. repeat split; lia.
       * cbn [fst snd observe]. rewrite eqb_oaddr_refl. cbn [negb].
-        left. eexists. split; [reflexivity|]. unfold R. cbn [q_now q_holder q_off]. auto.
+        eexists. split; [reflexivity|]. unfold R. cbn [q_now q_holder q_off]. auto.
   - (* Accept *)
     rewrite (step_accept k c s au). unfold mon_step. cbn [q_holder q_now q_off].
     unfold tget in *.
@@ -120,23 +119,25 @@ Proof.
           specialize (R3 eq_refl). discriminate. }
         rewrite Hs.
         destruct (now s <=? o_lu f) eqn:El.
-        -- left. eexists. split; [reflexivity|]. unfold R. cbn [q_now q_holder q_off now rts holder pending with_rt tlive_at].
+        -- eexists. split; [reflexivity|]. unfold R. cbn [q_now q_holder q_off now rts holder pending with_rt tlive_at].
            repeat split; auto.
-        -- assert (Ec : (now s <=? o_cover f) = true) by lia. rewrite Ec. right. reflexivity.
+        -- assert (Ec : (now s <=? o_cover f) = true) by lia. rewrite Ec.
+           eexists. split; [reflexivity|]. unfold R. cbn [q_now q_holder q_off now rts holder pending with_rt tlive_at].
+           repeat split; auto.
       * cbn [fst snd observe]. rewrite eqb_oaddr_refl. cbn [negb].
         assert (Hb : has_auth au (o_new f) && (now s <=? o_lu f) && is_some (holder (rts s)) = false).
         { rewrite F2. apply andb_false_iff in Eb. destruct Eb as [Eb|Eb]; [rewrite Eb; reflexivity|].
           unfold kind_ready in Eb. destruct k; [discriminate|].
           destruct (holder (rts s)); [discriminate|]. cbn. apply andb_false_r. }
-        rewrite Hb. left. eexists. split; [reflexivity|]. unfold R. cbn [q_now q_holder q_off].
+        rewrite Hb. eexists. split; [reflexivity|]. unfold R. cbn [q_now q_holder q_off].
         rewrite (proj2 (tlive_at_some _ _ _ _) (conj Ep Hl)). repeat split; auto. exists f. auto.
     + cbn [fst snd observe]. rewrite eqb_oaddr_refl. cbn [negb].
       destruct qo as [f|].
       * destruct R4 as [F3 F4].
         assert (Hb : has_auth au (o_new f) && (now s <=? o_lu f) && is_some (holder (rts s)) = false).
         { assert ((now s <=? o_lu f) = false) as -> by lia. rewrite andb_false_r. reflexivity. }
-        rewrite Hb. left. eexists. split; [reflexivity|]. unfold R. cbn [q_now q_holder q_off]. rewrite Et. auto.
-      * left. eexists. split; [reflexivity|]. unfold R. cbn [q_now q_holder q_off]. rewrite Et. auto.
+        rewrite Hb. eexists. split; [reflexivity|]. unfold R. cbn [q_now q_holder q_off]. rewrite Et. auto.
+      * eexists. split; [reflexivity|]. unfold R. cbn [q_now q_holder q_off]. rewrite Et. auto.
   - (* Renounce *)
     rewrite (step_renounce k c s au). unfold mon_step. cbn [q_holder q_now q_off].
     change holder_auth with signed_by. unfold tget in *.
@@ -146,29 +147,29 @@ Proof.
         destruct R4 as [f [F1 [F2 [F3 F4]]]]. rewrite F1.
         apply tlive_at_some in Et. destruct Et as [Ep Hl].
         assert ((o_cover f <? now s) = false) as -> by lia.
-        left. eexists. split; [reflexivity|]. unfold R. cbn [q_now q_holder q_off].
+        eexists. split; [reflexivity|]. unfold R. cbn [q_now q_holder q_off].
         rewrite (proj2 (tlive_at_some _ _ _ _) (conj Ep Hl)). repeat split; auto. exists f. auto.
       * cbn [fst snd observe with_rt rts holder eqb_oaddr].
-        assert (Hb : negb match qo with Some f => now s <=? o_lu f | None => false end = true).
+        assert (Hb : negb match qo with Some f => now s <=? o_cover f | None => false end = true).
         { destruct qo as [f|]; [|reflexivity]. destruct R4 as [F3 F4].
-          assert ((now s <=? o_lu f) = false) as -> by lia. reflexivity. }
+          assert ((now s <=? o_cover f) = false) as -> by lia. reflexivity. }
         rewrite Hb. cbn [andb].
-        left. eexists. split; [reflexivity|]. unfold R. cbn [q_now q_holder q_off now rts holder pending with_rt].
+        eexists. split; [reflexivity|]. unfold R. cbn [q_now q_holder q_off now rts holder pending with_rt].
         rewrite Et. repeat split; auto.
     + cbn [fst snd observe]. rewrite eqb_oaddr_refl. cbn [negb].
-      left. eexists. split; [reflexivity|]. unfold R. cbn [q_now q_holder q_off]. auto.
+      eexists. split; [reflexivity|]. unfold R. cbn [q_now q_holder q_off]. auto.
   - (* Guarded *)
     rewrite (step_guarded k c s au). unfold mon_step. cbn [q_holder q_now q_off].
     change holder_auth with signed_by.
     destruct (signed_by (holder (rts s)) au) eqn:Es.
     + destruct k; cbn [fst snd observe rts holder is_ok]; rewrite eqb_oaddr_refl; cbn;
-        left; eexists; (split; [reflexivity|]); unfold R; cbn [q_now q_holder q_off now rts]; auto.
+        eexists; (split; [reflexivity|]); unfold R; cbn [q_now q_holder q_off now rts]; auto.
     + cbn [fst snd observe is_ok]. rewrite eqb_oaddr_refl. cbn.
-      left. eexists. split; [reflexivity|]. unfold R. cbn [q_now q_holder q_off]. auto.
+      eexists. split; [reflexivity|]. unfold R. cbn [q_now q_holder q_off]. auto.
   - (* Advance *)
     cbn [step fst snd]. unfold mon_step. cbn [q_holder q_now q_off observe rts holder fst is_ok].
     rewrite eqb_oaddr_refl. cbn [andb].
-    left. eexists. split; [reflexivity|]. unfold R. cbn [q_now q_holder q_off now rts].
+    eexists. split; [reflexivity|]. unfold R. cbn [q_now q_holder q_off now rts].
     assert (Hle : now s <= now s + Z.of_N n) by lia.
     split; [reflexivity|]. split; [reflexivity|]. split.
     { intros Hn. apply tlive_at_mono with (n := now s); auto. }
@@ -184,19 +185,21 @@ Qed.
 Lemma R_init : forall hd, R (mon_init hd) (h_init hd).
 Proof. intros hd. unfold R, mon_init, h_init, init. cbn. repeat split; auto. Qed.
 
-(* over a model run the monitor either accepts everything or stops with class 1 *)
-Lemma mon_model : forall hd cs q s i,
+(* over a model run the monitor never meets an unclassified failure *)
+Lemma mon_model : forall hd cs q s i known,
   wf_header hd = true -> R q s ->
-  let r := mon_from hd q (model_items (h_kind hd) (h_cfg hd) s cs) i in
-  r = (0%N, 0%N) \/ snd r = 1%N.
+  let r := mon_from hd q (model_items (h_kind hd) (h_cfg hd) s cs) i known in
+  (known = 0%N /\ r = (0%N, 0%N)) \/ snd r = 1%N.
 Proof.
-  intros hd cs. induction cs as [|cl rest IH]; intros q s i Hwf HR; [left; reflexivity|].
-  cbn [model_items]. destruct (step (h_kind hd) (h_cfg hd) s cl) as [s' o] eqn:E.
-  cbn [mon_from].
-  pose proof (mon_step_model hd q s cl Hwf HR) as M. rewrite E in M. cbn [fst snd] in M.
-  destruct M as [[q' [M1 M2]]|M].
-  - rewrite M1. apply IH; assumption.
-  - rewrite M. right. reflexivity.
+  intros hd cs. induction cs as [|cl rest IH]; intros q s i known Hwf HR.
+  - cbn. destruct (N.eqb_spec known 0); [left; auto|right; reflexivity].
+  - cbn [model_items]. destruct (step (h_kind hd) (h_cfg hd) s cl) as [s' o] eqn:E.
+    cbn [mon_from].
+    destruct (mon_step_model hd q s cl Hwf HR) as [q' [M1 M2]]. rewrite E in M1, M2. cbn [fst snd] in M1, M2.
+    destruct (mon_step hd q (cl, o, observe s')) as [q1|q1|]; cbn [cont] in M1; [| |discriminate]; inversion M1; subst q1.
+    + apply IH; assumption.
+    + destruct (IH q' s' (N.succ i) (if N.eqb known 0 then N.succ i else known) Hwf M2) as [[K _]|K]; [|right; exact K].
+      exfalso. destruct (N.eqb_spec known 0); lia.
 Qed.
 
 Theorem check_model : forall hd cs,
@@ -205,65 +208,59 @@ Theorem check_model : forall hd cs,
   fst (fst v) = 0%N /\ ((snd (fst v) = 0%N /\ snd v = 0%N) \/ snd v = 1%N).
 Proof.
   intros hd cs Hwf. unfold check, observe_model. rewrite Hwf. rewrite diff_model.
-  pose proof (mon_model hd cs (mon_init hd) (h_init hd) 0%N Hwf (R_init hd)) as M. cbn zeta in M.
-  destruct (mon_from hd (mon_init hd) (model_items (h_kind hd) (h_cfg hd) (h_init hd) cs) 0%N) as [m cls].
+  pose proof (mon_model hd cs (mon_init hd) (h_init hd) 0%N 0%N Hwf (R_init hd)) as M. cbn zeta in M.
+  destruct (mon_from hd (mon_init hd) (model_items (h_kind hd) (h_cfg hd) (h_init hd) cs) 0%N 0%N) as [m cls].
   cbn [fst snd] in *. split; [reflexivity|].
-  destruct M as [M|M]; [inversion M; left; auto|right; exact M].
+  destruct M as [[_ M]|M]; [inversion M; left; auto|right; exact M].
 Qed.
 
 (* ------------------------------------------------------------------ *)
-(* with min_temp_entry_ttl = 1 and offers whose live_until never decreases, nothing is ever
-   overwritten by a shorter-lived offer: the monitor accepts the whole model run *)
+(* if no offer is written over a still stored entry that outlives it, the known class never
+   shows and the verdict of a model run is clean.  The hypothesis is a boolean of the run itself
+   (met by every harness input without a shorter-over-stored offer). *)
 
-Fixpoint lus_ok (m : Z) (cs : list call) : bool :=
+Definition safe_call (s : state) (cl : call) : bool :=
+  match cl with
+  | Offer _ lu _ =>
+      (lu =? 0) || match tlive_at (now s) (pending (rts s)) with Some e => tlive e <=? lu | None => true end
+  | _ => true
+  end.
+Fixpoint no_shorter_override (k : kind) (c : hostcfg) (s : state) (cs : list call) : bool :=
   match cs with
   | [] => true
-  | Offer _ lu _ :: r => if lu =? 0 then lus_ok m r else (m <=? lu) && lus_ok (Z.max m lu) r
-  | _ :: r => lus_ok m r
+  | cl :: r => safe_call s cl && no_shorter_override k c (fst (step k c s cl)) r
   end.
 
-Definition Pc (m : Z) (q : mon) : Prop :=
-  forall f, q_off q = Some f -> o_cover f = o_lu f /\ o_lu f <= Z.max m (q_now q).
+Definition Pc (q : mon) : Prop := forall f, q_off q = Some f -> o_cover f = o_lu f.
 
-Ltac break_if :=
-  match goal with
-  | H : context [if ?b then _ else _] |- _ => destruct b eqn:?
-  | H : context [match ?x with Some _ => _ | None => _ end] |- _ => destruct x eqn:?
-  | H : context [match ?x with Ok _ => _ | Fail => _ end] |- _ => destruct x eqn:?
-  end.
-
-Lemma mon_step_Pc : forall hd q cl o ob q' m,
-  h_min hd = 1 -> mon_step hd q (cl, o, ob) = MOk q' -> Pc m q ->
-  (forall new lu au, cl = Offer new lu au -> lu <> 0 -> m <= lu) ->
-  Pc (match cl with Offer _ lu _ => if lu =? 0 then m else Z.max m lu | _ => m end) q'.
+Lemma mon_step_Pc : forall hd q it q',
+  cont (mon_step hd q it) = Some q' -> Pc q ->
+  (forall new lu au v ob f, it = (Offer new lu au, Ok v, ob) -> lu <> 0 ->
+     q_off q = Some f -> q_now q <= o_cover f -> o_cover f <= lu) ->
+  Pc q'.
 Proof.
-  intros hd q cl o ob q' m Hmin H HP Hm. unfold mon_step in H.
+  intros hd q [[cl o] ob] q' H HP Hs. unfold mon_step in H.
   destruct cl as [new lu au|au|au|au|n].
   - destruct (negb (eqb_oaddr (fst ob) (q_holder q))); [discriminate|].
     destruct (lu =? 0) eqn:E0.
     + destruct o.
       * destruct (holder_auth (q_holder q) au && match q_off q with Some f => (o_new f =? new)%N | None => false end); [|discriminate].
-        inversion H; subst q'. unfold Pc, set_off. cbn. intros f Hf. discriminate.
+        inversion H; subst q'. intros f Hf. discriminate.
       * destruct (holder_auth (q_holder q) au && match q_off q with Some f => (o_new f =? new)%N && (q_now q <=? o_lu f) | None => false end); [discriminate|].
-        inversion H; subst q'. unfold Pc in *. intros f Hf. specialize (HP f Hf). lia.
-    + apply Z.eqb_neq in E0. specialize (Hm new lu au eq_refl E0).
-      destruct o.
-      * destruct (holder_auth (q_holder q) au && (q_now q <=? lu) && (lu <=? q_now q + h_max hd - 1)) eqn:Ev; [|discriminate].
-        apply andb_prop in Ev. destruct Ev as [Ev _]. apply andb_prop in Ev. destruct Ev as [_ Ev].
+        inversion H; subst q'. exact HP.
+    + apply Z.eqb_neq in E0. destruct o as [v|].
+      * destruct (holder_auth (q_holder q) au && (q_now q <=? lu) && (lu <=? q_now q + h_max hd - 1)); [|discriminate].
         destruct (q_off q) as [f0|] eqn:Eq.
-        -- destruct (HP f0 Eq) as [A B].
-           destruct (q_now q <=? o_cover f0) eqn:El; inversion H; subst q'; unfold Pc, set_off; cbn [q_off q_now];
-             intros f Hf; inversion Hf; subst f; cbn [o_cover o_lu]; rewrite ?Hmin; split; lia.
-        -- inversion H; subst q'; unfold Pc, set_off; cbn [q_off q_now];
-             intros f Hf; inversion Hf; subst f; cbn [o_cover o_lu]; rewrite ?Hmin; split; lia.
+        -- destruct (q_now q <=? o_cover f0) eqn:El; inversion H; subst q'; unfold set_off; intros f Hf; cbn in Hf; inversion Hf; subst f; cbn [o_cover o_lu]; [|reflexivity].
+           specialize (Hs new lu au v ob f0 eq_refl E0 eq_refl). lia.
+        -- inversion H; subst q'. unfold set_off. intros f Hf. cbn in Hf. inversion Hf; subst f. reflexivity.
       * destruct (holder_auth (q_holder q) au && (q_now q <=? lu) && (lu <=? q_now q + h_max hd - 1)); [discriminate|].
-        inversion H; subst q'. unfold Pc in *. intros f Hf. specialize (HP f Hf). lia.
+        inversion H; subst q'. exact HP.
   - destruct o.
     + destruct (q_off q) as [f0|]; [|discriminate].
       destruct (has_auth au (o_new f0) && eqb_oaddr (fst ob) (Some (o_new f0)) && is_some (q_holder q)); [|discriminate].
-      destruct (q_now q <=? o_lu f0).
-      * inversion H; subst q'. unfold Pc. cbn. intros f Hf. discriminate.
-      * destruct (q_now q <=? o_cover f0); discriminate.
+      destruct (q_now q <=? o_lu f0); [|destruct (q_now q <=? o_cover f0); [|discriminate]];
+        inversion H; subst q'; intros f Hf; discriminate.
     + destruct (negb (eqb_oaddr (fst ob) (q_holder q))); [discriminate|].
       destruct (q_off q) as [f0|] eqn:Eq.
       * destruct (has_auth au (o_new f0) && (q_now q <=? o_lu f0) && is_some (q_holder q)); [discriminate|].
@@ -271,20 +268,20 @@ Proof.
       * inversion H; subst q'. exact HP.
   - destruct o.
     + destruct (holder_auth (q_holder q) au && eqb_oaddr (fst ob) None &&
-                negb match q_off q with Some f => q_now q <=? o_lu f | None => false end); [|discriminate].
-      inversion H; subst q'. unfold Pc in *. cbn [q_off q_now]. exact HP.
+                negb match q_off q with Some f => q_now q <=? o_cover f | None => false end); [|discriminate].
+      inversion H; subst q'. exact HP.
     + destruct (negb (eqb_oaddr (fst ob) (q_holder q))); [discriminate|].
       destruct (holder_auth (q_holder q) au && match q_off q with Some f => o_cover f <? q_now q | None => true end); [discriminate|].
       inversion H; subst q'. exact HP.
   - destruct (eqb_oaddr (fst ob) (q_holder q) && Bool.eqb (is_ok o) (holder_auth (q_holder q) au)); [|discriminate].
     inversion H; subst q'. exact HP.
   - destruct (is_ok o && eqb_oaddr (fst ob) (q_holder q)); [|discriminate].
-    inversion H; subst q'. unfold Pc in *. cbn [q_off q_now]. intros f Hf. specialize (HP f Hf). lia.
+    inversion H; subst q'. exact HP.
 Qed.
 
-Lemma mon_step_not_known : forall hd q it m, Pc m q -> mon_step hd q it <> MBad 1%N.
+Lemma mon_step_not_known : forall hd q it q', Pc q -> mon_step hd q it <> MKnown q'.
 Proof.
-  intros hd q [[cl o] ob] m HP. unfold mon_step.
+  intros hd q [[cl o] ob] q' HP. unfold mon_step.
   destruct cl as [new lu au|au|au|au|n].
   - destruct (negb (eqb_oaddr (fst ob) (q_holder q))); [discriminate|].
     destruct (lu =? 0); destruct o;
@@ -293,7 +290,7 @@ Proof.
     + destruct (q_off q) as [f0|] eqn:Eq; [|discriminate].
       destruct (has_auth au (o_new f0) && eqb_oaddr (fst ob) (Some (o_new f0)) && is_some (q_holder q)); [|discriminate].
       destruct (q_now q <=? o_lu f0) eqn:El; [discriminate|].
-      destruct (HP f0 Eq) as [A _]. assert ((q_now q <=? o_cover f0) = false) as -> by lia. discriminate.
+      rewrite (HP f0 Eq). rewrite El. discriminate.
     + destruct (negb (eqb_oaddr (fst ob) (q_holder q))); [discriminate|].
       destruct (q_off q) as [f0|]; [|discriminate].
       destruct (has_auth au (o_new f0) && (q_now q <=? o_lu f0) && is_some (q_holder q)); discriminate.
@@ -302,33 +299,228 @@ Proof.
   - repeat match goal with |- context [if ?b then _ else _] => destruct b end; discriminate.
 Qed.
 
-Lemma mon_model_no_override : forall hd cs q s i m,
-  wf_header hd = true -> h_min hd = 1 -> R q s -> Pc m q -> lus_ok m cs = true ->
-  mon_from hd q (model_items (h_kind hd) (h_cfg hd) s cs) i = (0%N, 0%N).
+Lemma mon_model_safe : forall hd cs q s i,
+  wf_header hd = true -> R q s -> Pc q ->
+  no_shorter_override (h_kind hd) (h_cfg hd) s cs = true ->
+  mon_from hd q (model_items (h_kind hd) (h_cfg hd) s cs) i 0%N = (0%N, 0%N).
 Proof.
-  intros hd cs. induction cs as [|cl rest IH]; intros q s i m Hwf Hmin HR HP Hl; [reflexivity|].
+  intros hd cs. induction cs as [|cl rest IH]; intros q s i Hwf HR HP Hs; [reflexivity|].
+  cbn [no_shorter_override] in Hs. apply andb_prop in Hs. destruct Hs as [Hs1 Hs2].
   cbn [model_items]. destruct (step (h_kind hd) (h_cfg hd) s cl) as [s' o] eqn:E.
   cbn [mon_from].
-  pose proof (mon_step_model hd q s cl Hwf HR) as M. rewrite E in M. cbn [fst snd] in M.
-  destruct M as [[q' [M1 M2]]|M].
-  - rewrite M1.
-    assert (Hm : forall new lu au, cl = Offer new lu au -> lu <> 0 -> m <= lu).
-    { intros new lu au -> Hz. cbn [lus_ok] in Hl. destruct (lu =? 0) eqn:E0; [apply Z.eqb_eq in E0; contradiction|].
-      apply andb_prop in Hl. lia. }
-    pose proof (mon_step_Pc hd q cl o (observe s') q' m Hmin M1 HP Hm) as HP'.
-    apply IH with (m := match cl with Offer _ lu _ => if lu =? 0 then m else Z.max m lu | _ => m end); auto.
-    destruct cl as [new lu au|au|au|au|n]; cbn [lus_ok] in Hl; auto.
-    destruct (lu =? 0) eqn:E0.
-    + exact Hl.
-    + apply andb_prop in Hl. tauto.
-  - exfalso. exact (mon_step_not_known hd q _ m HP M).
+  destruct (mon_step_model hd q s cl Hwf HR) as [q' [M1 M2]]. rewrite E in M1, M2. cbn [fst snd] in M1, M2.
+  assert (HP' : Pc q').
+  { apply (mon_step_Pc hd q _ q' M1 HP). intros new lu au v ob f Hit Hz Hq Hn. inversion Hit; subst cl.
+    unfold safe_call in Hs1. destruct (lu =? 0) eqn:E0; [apply Z.eqb_eq in E0; contradiction|]. cbn [orb] in Hs1.
+    destruct HR as [R1 [R2 [R3 R4]]].
+    destruct (tlive_at (now s) (pending (rts s))) as [e|].
+    - destruct R4 as [f' [F1 [F2 [F3 F4]]]]. rewrite Hq in F1. inversion F1; subst f'. lia.
+    - rewrite Hq in R4. lia. }
+  destruct (mon_step hd q (cl, o, observe s')) as [q1|q1|] eqn:Em; cbn [cont] in M1; [| |discriminate]; inversion M1; subst q1.
+  - cbn [fst] in Hs2. apply IH; assumption.
+  - exfalso. exact (mon_step_not_known hd q _ q' HP Em).
 Qed.
 
 Theorem check_model_no_override : forall hd cs,
-  wf_header hd = true -> h_min hd = 1 -> lus_ok 0 cs = true ->
+  wf_header hd = true ->
+  no_shorter_override (h_kind hd) (h_cfg hd) (h_init hd) cs = true ->
   check (observe_model hd cs) = (0%N, 0%N, 0%N).
 Proof.
-  intros hd cs Hwf Hmin Hl. unfold check, observe_model. rewrite Hwf. rewrite diff_model.
-  rewrite (mon_model_no_override hd cs (mon_init hd) (h_init hd) 0%N 0 Hwf Hmin (R_init hd)); auto.
-  unfold Pc, mon_init. cbn. intros f Hf. discriminate.
+  intros hd cs Hwf Hs. unfold check, observe_model. rewrite Hwf. rewrite diff_model.
+  rewrite (mon_model_safe hd cs (mon_init hd) (h_init hd) 0%N Hwf (R_init hd)); auto.
+  intros f Hf. discriminate.
+Qed.
+
+(* ------------------------------------------------------------------ *)
+(* class 1 is EXACTLY the shape of known_findings.json, on ANY trace (implementation or model):
+   "offer A until L1, offer B until L2 < L1 (A merely replaced: no cancel / accept in between),
+    B accepts at n with L2 < n <= L1" *)
+
+Definition offer_item (it : item) (new : addr) (lu : Z) : Prop :=
+  exists au v ob, it = (Offer new lu au, Ok v, ob) /\ lu <> 0.
+(* no successful offer, cancel or accept / no successful cancel or accept *)
+Definition is_quiet (it : item) : bool :=
+  match it with (Offer _ _ _, Ok _, _) | (Accept _, Ok _, _) => false | _ => true end.
+Definition is_no_ca (it : item) : bool :=
+  match it with (Offer _ lu _, Ok _, _) => negb (lu =? 0) | (Accept _, Ok _, _) => false | _ => true end.
+
+Fixpoint mon_run (hd : header) (q : mon) (l : list item) : option mon :=
+  match l with
+  | [] => Some q
+  | it :: r => match cont (mon_step hd q it) with Some q' => mon_run hd q' r | None => None end
+  end.
+
+Lemma mon_run_app : forall hd l1 l2 q,
+  mon_run hd q (l1 ++ l2) = match mon_run hd q l1 with Some q1 => mon_run hd q1 l2 | None => None end.
+Proof.
+  intros hd l1. induction l1 as [|it r IH]; intros l2 q; [reflexivity|].
+  cbn [app mon_run]. destruct (cont (mon_step hd q it)); [apply IH|reflexivity].
+Qed.
+
+Definition Shape (l : list item) (f : offer_t) : Prop :=
+  exists l1 itB l2, l = l1 ++ itB :: l2 /\ offer_item itB (o_new f) (o_lu f) /\ forallb is_quiet l2 = true /\
+    (o_cover f = o_lu f \/
+     (o_lu f < o_cover f /\
+      exists m1 itA m2 a, l1 = m1 ++ itA :: m2 /\ offer_item itA a (o_cover f) /\ forallb is_no_ca m2 = true)).
+
+Lemma quiet_no_ca : forall l, forallb is_quiet l = true -> forallb is_no_ca l = true.
+Proof.
+  intros l. induction l as [|it r IH]; [reflexivity|]. cbn [forallb]. rewrite !andb_true_iff. intros [A B].
+  split; [|apply IH; exact B]. destruct it as [[cl o] ob]. destruct cl; destruct o; cbn in *; auto; discriminate.
+Qed.
+
+Lemma mon_step_cases : forall hd q it q',
+  cont (mon_step hd q it) = Some q' ->
+  (q_off q' = q_off q /\ is_quiet it = true) \/ q_off q' = None \/
+  (exists new lu au v ob, it = (Offer new lu au, Ok v, ob) /\ lu <> 0 /\
+     q_off q' = Some (match q_off q with
+                      | Some f => if q_now q <=? o_cover f
+                                  then {| o_new := new; o_lu := lu; o_cover := Z.max lu (o_cover f) |}
+                                  else {| o_new := new; o_lu := lu; o_cover := lu |}
+                      | None => {| o_new := new; o_lu := lu; o_cover := lu |}
+                      end)).
+Proof.
+  intros hd q [[cl o] ob] q' H. unfold mon_step in H.
+  destruct cl as [new lu au|au|au|au|n].
+  - destruct (negb (eqb_oaddr (fst ob) (q_holder q))); [discriminate|].
+    destruct (lu =? 0) eqn:E0.
+    + destruct o.
+      * destruct (holder_auth (q_holder q) au && match q_off q with Some f => (o_new f =? new)%N | None => false end); [|discriminate].
+        inversion H; subst q'. right. left. reflexivity.
+      * destruct (holder_auth (q_holder q) au && match q_off q with Some f => (o_new f =? new)%N && (q_now q <=? o_lu f) | None => false end); [discriminate|].
+        inversion H; subst q'. left. auto.
+    + apply Z.eqb_neq in E0. destruct o as [v|].
+      * destruct (holder_auth (q_holder q) au && (q_now q <=? lu) && (lu <=? q_now q + h_max hd - 1)); [|discriminate].
+        inversion H; subst q'. right. right. exists new, lu, au, v, ob. repeat split; auto.
+      * destruct (holder_auth (q_holder q) au && (q_now q <=? lu) && (lu <=? q_now q + h_max hd - 1)); [discriminate|].
+        inversion H; subst q'. left. auto.
+  - destruct o.
+    + destruct (q_off q) as [f0|]; [|discriminate].
+      destruct (has_auth au (o_new f0) && eqb_oaddr (fst ob) (Some (o_new f0)) && is_some (q_holder q)); [|discriminate].
+      destruct (q_now q <=? o_lu f0); [|destruct (q_now q <=? o_cover f0); [|discriminate]];
+        inversion H; subst q'; right; left; reflexivity.
+    + destruct (negb (eqb_oaddr (fst ob) (q_holder q))); [discriminate|].
+      destruct (q_off q) as [f0|] eqn:Eq.
+      * destruct (has_auth au (o_new f0) && (q_now q <=? o_lu f0) && is_some (q_holder q)); [discriminate|].
+        inversion H; subst q'. left. auto.
+      * inversion H; subst q'. left. auto.
+  - destruct o.
+    + destruct (holder_auth (q_holder q) au && eqb_oaddr (fst ob) None &&
+                negb match q_off q with Some f => q_now q <=? o_cover f | None => false end); [|discriminate].
+      inversion H; subst q'. left. auto.
+    + destruct (negb (eqb_oaddr (fst ob) (q_holder q))); [discriminate|].
+      destruct (holder_auth (q_holder q) au && match q_off q with Some f => o_cover f <? q_now q | None => true end); [discriminate|].
+      inversion H; subst q'. left. auto.
+  - destruct (eqb_oaddr (fst ob) (q_holder q) && Bool.eqb (is_ok o) (holder_auth (q_holder q) au)); [|discriminate].
+    inversion H; subst q'. left. destruct o; auto.
+  - destruct (is_ok o && eqb_oaddr (fst ob) (q_holder q)); [|discriminate].
+    inversion H; subst q'. left. destruct o; auto.
+Qed.
+
+Lemma shape_step : forall hd l q it q',
+  (forall f, q_off q = Some f -> Shape l f) ->
+  cont (mon_step hd q it) = Some q' ->
+  forall f', q_off q' = Some f' -> Shape (l ++ [it]) f'.
+Proof.
+  intros hd l q it q' IH H f' Hf'.
+  destruct (mon_step_cases hd q it q' H) as [[A B]|[A|[new [lu [au [v [ob [A [B C]]]]]]]]].
+  - rewrite A in Hf'. destruct (IH f' Hf') as [l1 [itB [l2 [E1 [E2 [E3 E4]]]]]].
+    exists l1, itB, (l2 ++ [it]). split; [rewrite E1, <- app_assoc; reflexivity|]. split; [exact E2|]. split; [|exact E4].
+    rewrite forallb_app, E3. cbn. rewrite B. reflexivity.
+  - congruence.
+  - rewrite C in Hf'. inversion Hf'; subst f'; clear Hf'.
+    assert (Hit : forall a0, a0 = new -> offer_item it a0 lu) by (intros a0 ->; exists au, v, ob; auto).
+    destruct (q_off q) as [f0|] eqn:Eq.
+    + destruct (q_now q <=? o_cover f0) eqn:El.
+      * exists l, it, []. split; [reflexivity|]. split; [apply Hit; reflexivity|]. split; [reflexivity|]. cbn [o_cover o_lu].
+        destruct (Z.max_spec lu (o_cover f0)) as [[M1 M2]|[M1 M2]]; [|left; lia].
+        right. split; [lia|]. rewrite M2.
+        destruct (IH f0 eq_refl) as [l1 [itB [l2 [E1 [E2 [E3 E4]]]]]].
+        destruct E4 as [E4|[E4 [m1 [itA [m2 [a [F1 [F2 F3]]]]]]]].
+        -- exists l1, itB, l2, (o_new f0). split; [exact E1|]. split; [rewrite E4; exact E2|]. apply quiet_no_ca; exact E3.
+        -- exists m1, itA, (m2 ++ itB :: l2), a. split; [rewrite E1, F1, <- app_assoc; reflexivity|]. split; [exact F2|].
+           rewrite forallb_app, F3. cbn [forallb andb]. rewrite (quiet_no_ca _ E3), andb_true_r.
+           destruct E2 as [au0 [v0 [ob0 [-> Hz]]]]. cbn. destruct (o_lu f0 =? 0) eqn:E0; [apply Z.eqb_eq in E0; contradiction|reflexivity].
+      * exists l, it, []. split; [reflexivity|]. split; [apply Hit; reflexivity|]. split; [reflexivity|]. left. reflexivity.
+    + exists l, it, []. split; [reflexivity|]. split; [apply Hit; reflexivity|]. split; [reflexivity|]. left. reflexivity.
+Qed.
+
+Lemma shape_inv : forall hd l q,
+  mon_run hd (mon_init hd) l = Some q -> forall f, q_off q = Some f -> Shape l f.
+Proof.
+  intros hd l. induction l as [|it r IH] using rev_ind; intros q H f Hf.
+  - cbn in H. inversion H; subst q. discriminate.
+  - rewrite mon_run_app in H. destruct (mon_run hd (mon_init hd) r) as [q1|] eqn:E; [|discriminate].
+    cbn [mon_run] in H. destruct (cont (mon_step hd q1 it)) as [q2|] eqn:E2; [|discriminate]. inversion H; subst q2.
+    eapply shape_step; eauto.
+Qed.
+
+Theorem known_is_F2_shape : forall hd l q it q',
+  mon_run hd (mon_init hd) l = Some q -> mon_step hd q it = MKnown q' ->
+  exists au v ob b L2 L1 m1 itA m2 a itB l2,
+    it = (Accept au, Ok v, ob) /\ has_auth au b = true /\ fst ob = Some b /\
+    l = (m1 ++ itA :: m2) ++ itB :: l2 /\
+    offer_item itA a L1 /\ forallb is_no_ca m2 = true /\       (* offer A until L1, only replaced since *)
+    offer_item itB b L2 /\ forallb is_quiet l2 = true /\        (* the latest offer: B until L2 *)
+    L2 < q_now q <= L1.                                          (* accepted after L2, within L1 *)
+Proof.
+  intros hd l q [[cl o] ob] q' Hr Hk. unfold mon_step in Hk.
+  destruct cl as [new lu au|au|au|au|n].
+  - exfalso. destruct (negb (eqb_oaddr (fst ob) (q_holder q))); [discriminate|].
+    destruct (lu =? 0); destruct o;
+    repeat match goal with H : context [if ?b then _ else _] |- _ => destruct b end; discriminate.
+  - destruct o as [v|].
+    + destruct (q_off q) as [f|] eqn:Eq; [|discriminate].
+      destruct (has_auth au (o_new f) && eqb_oaddr (fst ob) (Some (o_new f)) && is_some (q_holder q)) eqn:Ec; [|discriminate].
+      destruct (q_now q <=? o_lu f) eqn:E1; [discriminate|].
+      destruct (q_now q <=? o_cover f) eqn:E2; [|discriminate].
+      apply andb_prop in Ec. destruct Ec as [Ec _]. apply andb_prop in Ec. destruct Ec as [Ea Eh].
+      destruct (shape_inv hd l q Hr f Eq) as [l1 [itB [l2 [S1 [S2 [S3 S4]]]]]].
+      destruct S4 as [S4|[S4 [m1 [itA [m2 [a [F1 [F2 F3]]]]]]]]; [lia|].
+      exists au, v, ob, (o_new f), (o_lu f), (o_cover f), m1, itA, m2, a, itB, l2.
+      repeat split; auto; try lia.
+      * destruct (fst ob) as [x|]; cbn in Eh; [apply N.eqb_eq in Eh; subst; reflexivity|discriminate].
+      * rewrite S1, F1. reflexivity.
+    + exfalso. destruct (negb (eqb_oaddr (fst ob) (q_holder q))); [discriminate|].
+      destruct (q_off q) as [f|]; [|discriminate].
+      destruct (has_auth au (o_new f) && (q_now q <=? o_lu f) && is_some (q_holder q)); discriminate.
+  - exfalso. destruct o; repeat match goal with H : context [if ?b then _ else _] |- _ => destruct b end; discriminate.
+  - exfalso. repeat match goal with H : context [if ?b then _ else _] |- _ => destruct b end; discriminate.
+  - exfalso. repeat match goal with H : context [if ?b then _ else _] |- _ => destruct b end; discriminate.
+Qed.
+
+(* a class-1 verdict of [check] points at such a step *)
+Lemma mon_from_known_nonzero : forall hd l q i known, known <> 0%N ->
+  let r := mon_from hd q l i known in r = (known, 1%N) \/ snd r = 0%N.
+Proof.
+  intros hd l. induction l as [|it rest IH]; intros q i known Hk; cbn [mon_from].
+  - destruct (N.eqb_spec known 0); [contradiction|left; reflexivity].
+  - destruct (mon_step hd q it) as [q1|q1|].
+    + apply IH; exact Hk.
+    + destruct (N.eqb_spec known 0); [contradiction|]. apply IH; exact Hk.
+    + right. reflexivity.
+Qed.
+
+Theorem verdict_known_points_at_F2 : forall hd l k,
+  mon_from hd (mon_init hd) l 0%N 0%N = (k, 1%N) ->
+  exists l1 it l2 q1 q', l = l1 ++ it :: l2 /\ k = N.of_nat (length l1 + 1) /\
+    mon_run hd (mon_init hd) l1 = Some q1 /\ mon_step hd q1 it = MKnown q'.
+Proof.
+  intros hd l k. generalize (mon_init hd) as q0.
+  assert (G : forall l q i pre q0, mon_run hd q0 pre = Some q -> i = N.of_nat (length pre) ->
+              mon_from hd q l i 0%N = (k, 1%N) ->
+              exists l1 it l2 q1 q', pre ++ l = l1 ++ it :: l2 /\ k = N.of_nat (length l1 + 1) /\
+                mon_run hd q0 l1 = Some q1 /\ mon_step hd q1 it = MKnown q').
+  { clear l. intros l. induction l as [|it rest IH]; intros q i pre q0 Hp Hi H; cbn [mon_from] in H; [cbn in H; discriminate|].
+    destruct (mon_step hd q it) as [q1|q1|] eqn:Em.
+    - destruct (IH q1 (N.succ i) (pre ++ [it]) q0) as [l1 [it' [l2 [q1' [q'' [A B]]]]]]; auto.
+      + rewrite mon_run_app, Hp. cbn [mon_run]. rewrite Em. reflexivity.
+      + rewrite app_length. cbn. lia.
+      + exists l1, it', l2, q1', q''. rewrite <- app_assoc in A. exact (conj A B).
+    - change (if (0 =? 0)%N then N.succ i else 0%N) with (N.succ i) in H.
+      destruct (mon_from_known_nonzero hd rest q1 (N.succ i) (N.succ i) ltac:(lia)) as [K|K]; cbn zeta in K.
+      + rewrite K in H. inversion H. exists pre, it, rest, q, q1. repeat split; auto. lia.
+      + rewrite H in K. discriminate.
+    - discriminate. }
+  intros q0 H. destruct (G l q0 0%N [] q0 eq_refl eq_refl H) as [l1 [it [l2 [q1 [q' X]]]]]. exists l1, it, l2, q1, q'. exact X.
 Qed.
